@@ -1,1 +1,2 @@
 import PynGen.NpzKeys
+import PynGen.UnitSites
